@@ -163,8 +163,8 @@ def rand_case(rng, maxlen):
         r = rng.uniform(0.12, 0.91)
         v = vm() if forced_vm is None else (forced_vm if rng.random() < 0.8 else -1)
         if r < 0.55:
-            route = "parse" if rng.random() < 0.5 else "direct"
-            name = rng.choice(SIMPLE if route == "parse" else REG)
+            route = rng.choice(["parse", "parse", "parsefile", "direct", "direct"])
+            name = rng.choice(SIMPLE if route != "direct" else REG)
             if used and rng.random() < 0.2:
                 f = rng.choice(used)
             else:
@@ -198,8 +198,8 @@ def rand_case(rng, maxlen):
             ops.append({"op": "newtemp"})
             ntemps += 1
         elif r < 0.55:
-            route = "parse" if rng.random() < 0.4 else "direct"
-            name = rng.choice(SIMPLE if route == "parse" else REG)
+            route = rng.choice(["parse", "parse", "parsefile", "direct", "direct", "direct"])
+            name = rng.choice(SIMPLE if route != "direct" else REG)
             if used and rng.random() < 0.2:
                 f = rng.choice(used)      # the same file again (same-file re-declaration)
             else:
@@ -224,7 +224,7 @@ def alphabet():
     return [
         {"op": "add", "vm": -1, "kind": "c", "name": "A", "file": 1, "route": "direct"},
         {"op": "add", "vm": 0, "kind": "c", "name": "A", "file": 2, "route": "parse"},
-        {"op": "add", "vm": 1, "kind": "f", "name": "A", "file": 3, "route": "parse"},
+        {"op": "add", "vm": 1, "kind": "f", "name": "A", "file": 3, "route": "parsefile"},
         {"op": "add", "vm": 0, "kind": "i", "name": "a", "file": 4, "route": "direct"},
         {"op": "add", "vm": -1, "kind": "i", "name": "a", "file": 5, "route": "parse"},
         {"op": "goc", "vm": 0, "name": "App\\P"},
